@@ -184,6 +184,9 @@ def add_request_safe(sim: SimulationState, request: Request) -> ResultE[Simulati
     :return: the updated simulation state, or an error
     """
 
+    if request.id in sim.requests:
+        # re-adding a known id replaces it; going through modify keeps the location indexes exact
+        return modify_request_safe(sim, request)
     if not sim.road_network.geoid_within_geofence(request.origin):
         return Failure(
             SimulationStateError(f"origin {request.origin} not within road network geofence")
@@ -308,6 +311,9 @@ def add_vehicle_safe(sim: SimulationState, vehicle: Vehicle) -> ResultE[Simulati
     :param vehicle: a vehicle
     :return: updated SimulationState, or SimulationStateError
     """
+    if vehicle.id in sim.vehicles:
+        # re-adding a known id replaces it; going through modify keeps the location indexes exact
+        return modify_vehicle_safe(sim, vehicle)
     if not sim.road_network.geoid_within_geofence(vehicle.geoid):
         error = SimulationStateError(
             f"cannot add vehicle {vehicle.id} to sim: not within road network geofence"
@@ -474,6 +480,10 @@ def add_station_safe(sim: SimulationState, station: Station) -> ResultE[Simulati
     :param station: the station to add
     :return: the updated SimulationState, or a error = SimulationStateError
     """
+    if station.id in sim.stations:
+        # re-adding a known id replaces it; going through modify keeps the location indexes exact
+        # (stations cannot move: modify refuses a new location)
+        return modify_station_safe(sim, station)
     if not sim.road_network.geoid_within_geofence(station.geoid):
         error = SimulationStateError(
             f"cannot add station {station.id} to sim: not within road network geofence"
@@ -585,6 +595,10 @@ def add_base_safe(sim: SimulationState, base: Base) -> ResultE[SimulationState]:
     :param base: the base to add
     :return: the updated SimulationState, or a SimulationStateError
     """
+    if base.id in sim.bases:
+        # re-adding a known id replaces it; going through modify keeps the location indexes exact
+        # (bases cannot move: modify refuses a new location)
+        return modify_base_safe(sim, base)
     if not sim.road_network.geoid_within_geofence(base.geoid):
         error = SimulationStateError(
             f"cannot add base {base.id} to sim: not within road network geofence"
